@@ -142,6 +142,10 @@ func init() {
 		Gen:     GenC17Script,
 		Oracles: func() []Oracle { return nil },
 	}
+	Props["C04"] = PropDef{
+		Gen:     GenPlacementScript,
+		Oracles: func() []Oracle { return []Oracle{PlacementOracle{}} },
+	}
 	Props["C18"] = PropDef{
 		Gen:     GenC18Script,
 		Oracles: func() []Oracle { return nil },
